@@ -920,17 +920,17 @@ impl Schedule {
                 || vehicle_type_of_provider_result.unwrap() != vehicle_type_of_receiver
             {
                 // vehicle types do not match, check if there are any service trip in the segment
-                if self
-                    .tour_of(provider)
-                    .unwrap()
-                    .sub_path(segment)
-                    .unwrap()
-                    .iter()
-                    .any(|n| {
-                        !self
-                            .network
-                            .compatible_with_vehicle_type(n, vehicle_type_of_receiver)
-                    })
+                let path = self.tour_of(provider).unwrap().sub_path(segment).unwrap();
+                if path.iter().any(|n| {
+                    !self
+                        .network
+                        .compatible_with_vehicle_type(n, vehicle_type_of_receiver)
+                }) {
+                    return false;
+                }
+                // if the start depot is moved, it must have capacity for the type of the receiver
+                if self.network.node(path.first()).is_start_depot()
+                    && !self.can_depot_spawn_vehicle(path.first(), vehicle_type_of_receiver)
                 {
                     return false;
                 }
